@@ -801,7 +801,7 @@ def line_fit_wtls(x,y,u_x,u_y,a0_b0=None,r_xy=None,dof=None,label=None):
     a, b = result.a_b
     N = result.N
     ssr = result.ssr
-    r_ab = a.get_correlation(b)
+    r_ab = _clip_r( a.get_correlation(b) )
     
     a = ureal(
         a.x,
